@@ -22,17 +22,27 @@ device (any plug list, any script table), every command slot and every target li
 * `C01_count`, `C01_install_involved` — the count is the number of actions; an involved device that passed the
                             capability check gets at least one (F15 repaired);
 * `C01_wire_*`            — what a `send` writes: the configured plug name / the ranged plug names / no name;
-* `C01_request`           — the target list `install` receives from `_parse_input` is the expansion of the host range
-                            the client typed (every name a configured node), or all configured nodes for a bare query;
+* `C01_request`           — the target list `install` receives from `_parse_input` is `conf_exp_aliases` of the expansion of
+                            the host range the client typed (every name a configured node), or all configured nodes for a
+                            bare query;
+* `C01_alias_expansion`, `C01_alias_identity`, `C01_alias_members`, `C01_alias_multiset` — what `conf_exp_aliases` computes:
+                            the closed form of its loop, the identity without aliases, membership, the result as a multiset;
+* `C01_validated`         — the targets an installed command carries (in the client's command and in every action) are
+                            exactly that list;
+* `C01_alias_only_members`, `C01_alias_subset` — a plug is commanded only if its node is a typed name that is not an alias
+                            name, or a host of a typed alias;
+* `C01_alias_no_recursion` — a host of an alias that is itself the name of an alias is kept as it is, not expanded;
 * `C01_too_long_never_acts` — a request line of `CP_LINEMAX` (131072) bytes or more is refused (203) before it is looked
                             at: no device receives anything on its behalf, whatever it says;
 * `C01_foreach_in_singlet_counterexample` — the limit: a singlet script containing `foreachplug` walks all plugs.
 
-Not in the model: `conf_exp_aliases` (the model covers configurations without `alias` lines).  The theorems about
-`enqueue`/`install` hold for an arbitrary target list, hence for whatever alias expansion yields. -/
+`conf_exp_aliases` is mirrored on expanded name lists (`expAliases`, `Pm/Daemon.lean`; helper lemmas `Pm/AliasProof.lean`):
+`hostlist_delete_host` is "erase the first occurrence", `hostlist_push_list` is "append".  The theorems about
+`enqueue`/`install` hold for an arbitrary target list; `C01_validated` says which list `_parse_input` passes. -/
 namespace Pm.Props.C01
 open Pm Pm.Client Pm.Daemon
 open Pm.Daemon.Enq
+open Pm.Daemon.AliasPf (isAlias membersOf standsFor exAls exNested)
 open Pm.Dev2 (Dev Action Stmt Plug ExecCtx Oracle Out stmtSend hsprintf rangedNames topCtx)
 
 /-- The six power commands are exactly the commands that are not queries (`_is_query_action`). -/
@@ -210,15 +220,101 @@ theorem C01_wire_fresh_singlet (d : Dev) (com : Nat) (targets : List Bytes) (cid
 
 /-- From the client's line to the target list.  `_parse_input` either leaves all devices alone or hands the request
     to `install`; then no command of this client was in progress, and the target list is: for a bare `status`/`temp`/
-    `beacon`, all configured nodes (a query); otherwise the expansion of the host range `arg` that follows the
-    command's keyword on the line, every name of which is a configured node. -/
+    `beacon`, all configured nodes (a query); otherwise `conf_exp_aliases` applied to the expansion of the host range `arg`
+    that follows the command's keyword on the line, every name of which is a configured node.
+    (Before aliases were modelled the statement read `names = expand hl`; with `w.cfg.aliases = []` it still does:
+    `C01_alias_identity`.) -/
 theorem C01_request (w : W) (c : Cli) (line : Bytes) :
     (parseLine w c line).1.devs = w.devs ∨
     ∃ com names, parseLine w c line = install w c com names ∧ c.cmd = none ∧
       ((isQuery (comIdx com) = true ∧ names = expand w.cfg.nodes) ∨
        (∃ arg hl, scan (kwOf com) (stripWs (line.takeWhile (· != 0))) = some arg ∧ createR (toChars arg) = .ok hl ∧
-          names = expand hl ∧ ∀ n ∈ names, (find w.cfg.nodes n).isSome = true)) :=
+          names = expAliases w.cfg.aliases (expand hl) ∧ ∀ n ∈ names, (find w.cfg.nodes n).isSome = true)) :=
   parseLine_cases w c line
+
+/-! ### alias expansion (`conf_exp_aliases`)
+
+`expAliases als names` runs the loop of `conf_exp_aliases` on the expanded list `names`: walk the list from the start; the
+first name that is the name of an alias (`aliasOf als n = some hosts`: the first alias of that name) is erased (its first
+occurrence), `hosts` is appended to a side list, and the walk starts again; a walk that meets no alias name ends the loop and
+the side list is appended.  `isAlias als n` = `(aliasOf als n).isSome`; `membersOf als n` = the hosts of alias `n` (`[]` if
+there is none); `standsFor als n` = the hosts of alias `n`, or `[n]` if `n` is not an alias name. -/
+
+/-- **What the loop computes.**  The typed names that are not alias names, in the order typed; then, for every occurrence of
+    an alias name, in the order typed, the hosts of that alias in the order (and with the repetitions) of its definition.
+    A name typed twice is expanded twice. -/
+theorem C01_alias_expansion (als : List (Name × List Name)) (names : List Name) :
+    expAliases als names = names.filter (fun n => !isAlias als n) ++ names.flatMap (membersOf als) :=
+  AliasPf.expAliases_spec als names
+
+/-- Without aliases, and on a list that contains no alias name, `conf_exp_aliases` changes nothing. -/
+theorem C01_alias_identity (als : List (Name × List Name)) (names : List Name) :
+    expAliases [] names = names ∧ ((∀ n ∈ names, isAlias als n = false) → expAliases als names = names) :=
+  ⟨AliasPf.expAliases_nil names, AliasPf.expAliases_no_alias als names⟩
+
+/-- Membership: a name is in the result iff it was typed and is not an alias name, or is a host of a typed alias. -/
+theorem C01_alias_members (als : List (Name × List Name)) (names : List Name) (x : Name) :
+    x ∈ expAliases als names ↔
+      (x ∈ names ∧ aliasOf als x = none) ∨ ∃ a ∈ names, ∃ hs, aliasOf als a = some hs ∧ x ∈ hs :=
+  AliasPf.mem_expAliases
+
+/-- As a multiset the result is: each typed name replaced by what it stands for. -/
+theorem C01_alias_multiset (als : List (Name × List Name)) (names : List Name) :
+    (expAliases als names).Perm (names.flatMap (standsFor als)) :=
+  AliasPf.expAliases_perm als names
+
+example : expAliases exAls ["rackt".toList, "u3".toList] = ["u3", "t0", "t1", "t2", "t3"].map String.toList := by decide +kernel
+example : expAliases exAls ["mix".toList, "mix".toList] = ["t7", "u1", "u2", "t7", "u1", "u2"].map String.toList := by decide +kernel
+example : expAliases exAls ["t2".toList, "rackt".toList] = ["t2", "t0", "t1", "t2", "t3"].map String.toList := by decide +kernel
+example : expAliases exAls (["t2", "rackt", "t2", "dupl", "t5"].map String.toList) =
+    ["t2", "t2", "t5", "t0", "t1", "t2", "t3", "t1", "t1"].map String.toList := by decide +kernel
+
+/-- **The validated target list.**  If a line typed while no command of this client was in progress leaves the client with
+    a command `k`, then: every device went through `dev_enqueue_actions` (`installDev`, to whose `newActs` all theorems above
+    apply) for the target list `k.names` with the argument-list id `k.al`; and `k.names` is — for a bare query — all
+    configured nodes, otherwise exactly `conf_exp_aliases` of the expansion of the host range typed after the keyword, every
+    name of it a configured node (`conf_node_exists`).  Nothing else becomes a target. -/
+theorem C01_validated (w : W) (c : Cli) (line : Bytes) (k : CmdC) (h0 : c.cmd = none)
+    (hk : (parseLine w c line).2.cmd = some k) :
+    (parseLine w c line).1.devs = w.devs.map (installDev (comIdx k.com) (k.names.map ofChars) c.id c.telemetry w.alNext) ∧
+    k.al = w.alNext ∧
+    ((isQuery (comIdx k.com) = true ∧ k.names = expand w.cfg.nodes) ∨
+     (∃ arg hl, scan (kwOf k.com) (stripWs (line.takeWhile (· != 0))) = some arg ∧ createR (toChars arg) = .ok hl ∧
+        k.names = expAliases w.cfg.aliases (expand hl) ∧ ∀ n ∈ k.names, (find w.cfg.nodes n).isSome = true)) :=
+  parseLine_validated w c line k h0 hk
+
+/-- **Only typed nodes and the members of typed aliases.**  For a power command whose target list is `conf_exp_aliases` of
+    the typed names: every plug an appended action can command (its plug list; every plug of the device for `_all`) is a plug
+    of this device whose node is a typed name that is not an alias name, or one of the hosts of a typed alias.
+    (`C01_commanded` composed with `C01_alias_members`; `ofChars` turns a name into the bytes the plug table holds.) -/
+theorem C01_alias_only_members (d : Dev) (com : Nat) (als : List (Name × List Name)) (typed : List Name) (cid : Nat)
+    (tele : Bool) (al : Nat) (hq : isQuery com = false) :
+    ∀ a ∈ newActs d.plugs d.scripts com ((expAliases als typed).map ofChars) cid tele al,
+      ∀ p ∈ a.commanded d, p ∈ d.plugs ∧ ∃ m, p.node = some (ofChars m) ∧
+        ((m ∈ typed ∧ aliasOf als m = none) ∨ ∃ b ∈ typed, ∃ hs, aliasOf als b = some hs ∧ m ∈ hs) :=
+  fun _ h => alias_commanded hq h
+
+/-- The same for the plug list of any appended action, queries included (`C01_subset` composed with `C01_alias_members`). -/
+theorem C01_alias_subset (d : Dev) (com : Nat) (als : List (Name × List Name)) (typed : List Name) (cid : Nat)
+    (tele : Bool) (al : Nat) :
+    ∀ a ∈ newActs d.plugs d.scripts com ((expAliases als typed).map ofChars) cid tele al, ∀ ps, a.outerPlugs = some ps →
+      ∀ p ∈ ps, p ∈ d.plugs ∧ ∃ m, p.node = some (ofChars m) ∧
+        ((m ∈ typed ∧ aliasOf als m = none) ∨ ∃ b ∈ typed, ∃ hs, aliasOf als b = some hs ∧ m ∈ hs) :=
+  fun _ h _ hps => alias_subset h hps
+
+/-- **No recursion.**  `conf_exp_aliases` expands once.  A name of the result that is itself the name of an alias did not
+    come from the user's list (every typed occurrence of an alias name is deleted): it is there, as often as it is listed
+    among the hosts of the typed aliases, as a name — its own hosts are not added on its account.  (`_hostlist_create_validated`
+    then looks it up like any other name: `209` unless a node of that name exists.  The parser does not forbid a node and
+    an alias of the same name, so this can happen in an accepted configuration.) -/
+theorem C01_alias_no_recursion (als : List (Name × List Name)) (names : List Name) (b : Name) (hb : isAlias als b = true) :
+    (expAliases als names).count b = (names.flatMap (membersOf als)).count b :=
+  AliasPf.count_alias_name als names b hb
+
+/-- `outer = inner,t0`, `inner = t1`: typing `outer` yields `inner,t0`; a second expansion would give `t0,t1` -/
+example : isAlias exNested "inner".toList = true ∧
+    expAliases exNested ["outer".toList] = ["inner".toList, "t0".toList] ∧
+    expAliases exNested (expAliases exNested ["outer".toList]) = ["t0".toList, "t1".toList] := by decide +kernel
 
 /-- **A line that is too long never acts.**  `_parse_input` tests `strlen(str) >= CP_LINEMAX` (131072) on the stripped line
     before anything else: such a line — whatever command and targets it spells, whatever the client's state — is answered
@@ -289,5 +385,29 @@ example : needsDev (exDevWith [exP1, exP3] exScriptsAllOnly) [[110, 49]] = true 
 example : (parseLine exW exC exLine).1.devs.map (fun nd => summary nd.2.acts) = [[(11, some [exP1, exP3])], []] ∧
     ((parseLine exW exC exLine).2.cmd.map fun k => (k.com, k.names, k.pending)) = some (Com.off, [['n', '1'], ['n', '3']], 1) := by
   decide +kernel
+
+/-! ### with aliases
+
+`alW`: device `dt` (plugs "0"…"7" ↦ t0…t7), device `du` (plugs "0"…"3" ↦ u0…u3), scripts `on`, `on_ranged`, `off`, `off_ranged`,
+`status_all`; aliases `rackt = t0,t1,t2,t3`, `mix = t7,u1,u2`, `dupl = t1,t1`.  `alRun line` = (the client's target list and
+the number of actions it waits for, per device the appended actions as (script slot, plug names listed)). -/
+
+-- `on rackt,u3`: the plain name first, then the four hosts of the alias; `on_ranged` for plugs 0-3 of `dt`, `on` for plug 3 of `du`
+example : alRun "on rackt,u3\n" =
+    (some (["u3", "t0", "t1", "t2", "t3"], 2), [[(8, some ["0", "1", "2", "3"])], [(7, some ["3"])]]) := by decide +kernel
+-- `status mix,mix`: an alias typed twice is expanded twice; no singlet `status` script, so `status_all` on both devices
+example : alRun "status mix,mix\n" =
+    (some (["t7", "u1", "u2", "t7", "u1", "u2"], 2), [[(3, none)], [(3, none)]]) := by decide +kernel
+-- `off t2,rackt`: t2 is a target twice (typed, and as a host of `rackt`); one `off_ranged` action in which plug 2 is listed once
+example : alRun "off t2,rackt\n" =
+    (some (["t2", "t0", "t1", "t2", "t3"], 1), [[(11, some ["0", "1", "2", "3"])], []]) := by decide +kernel
+-- `off dupl`: repetitions inside an alias are kept; one singlet `off` for plug 1
+example : alRun "off dupl\n" = (some (["t1", "t1"], 1), [[(10, some ["1"])], []]) := by decide +kernel
+-- the hypotheses of `C01_validated` hold for `on rackt,u3` typed by the idle client
+example : exC.cmd = none ∧ ((parseLine alW exC (bstr "on rackt,u3\n")).2.cmd.map (·.names)) =
+    some (expAliases alW.cfg.aliases ["rackt".toList, "u3".toList]) := by decide +kernel
+-- an unknown name beside an alias: 209 for that name, nothing enqueued
+example : (parseLine alW exC (bstr "on rackt,zz9\n")).2.toBuf = bstr "209 No such nodes: zz9\r\npowerman> " ∧
+    (parseLine alW exC (bstr "on rackt,zz9\n")).1.devs.map (fun nd => nd.2.acts.length) = [0, 0] := by decide +kernel
 
 end Pm.Props.C01
